@@ -522,6 +522,42 @@ async fn run_case(addr: SocketAddr, certs: &Certs, t: &[&str]) -> anyhow::Result
                 Ok(format!("{a} got={} probe=ok", if got.is_empty() { "-".to_string() } else { got.join("+") }))
             }
         }
+        "leave" => {
+            // a publisher that has handed everything over - `finish()` has completed: every byte is acknowledged by the server -
+            // leaves with its whole connection while the topic is held up by a subscriber that is not reading yet: what the
+            // server took from it is still forwarded, all of it, in order, once the subscriber reads
+            let n: usize = t[2].parse()?;
+            let kib: usize = t[3].parse()?;
+            let (ns, tp) = fresh();
+            let sconn = raw(addr, certs).await?;
+            let mut sub = raw_stream(&sconn).await?;
+            sub.send(reg_frame("RS", &ns, &tp)).await?;
+            let a = answer(&mut sub).await;
+            let pconn = raw(addr, certs).await?;
+            let mut publ = raw_stream(&pconn).await?;
+            publ.send(reg_frame("RP", &ns, &tp)).await?;
+            let a2 = answer(&mut publ).await;
+            let body = |i: usize| { let mut v = vec![b'a' + (i % 26) as u8; kib * 1024]; v[..4].copy_from_slice(&(i as u32).to_be_bytes()); v };
+            let mut handed = 0;
+            for i in 0..n {
+                let f = Frame::Message(MessagePayload { headers: None, message: bytes::Bytes::from(body(i)) });
+                match tokio::time::timeout(Duration::from_secs(20), publ.send(f)).await { Ok(Ok(())) => handed += 1, _ => break }
+            }
+            let fin = matches!(tokio::time::timeout(Duration::from_secs(20), publ.finish()).await, Ok(Ok(())));
+            drop(publ);
+            pconn.close(0u32.into(), b"done");
+            drop(pconn);
+            tokio::time::sleep(Duration::from_millis(2500)).await;
+            let mut got = 0;
+            while got < n {
+                match tokio::time::timeout(Duration::from_secs(5), sub.next()).await {
+                    Ok(Some(Ok(Frame::Message(m)))) if m.message.len() == kib * 1024 && m.message[..] == body(got)[..] => got += 1,
+                    _ => break,
+                }
+            }
+            // (only what the publisher was able to hand over and have acknowledged is owed)
+            Ok(format!("{a} {a2} got={} probe=ok", if handed == n && fin { got.to_string() } else { format!("{got}/handed{handed}fin{fin}") }))
+        }
         "rebind" => {
             // a replier that leaves in good order - it finishes and drops its stream, its connection stays - frees the slot: the
             // next replier to register, on the same connection, is bound (told nothing) and serves. `alone`: no requestor
@@ -843,6 +879,8 @@ pub fn run_named(cfg: &Cfg, name: &str) {
         cases.push("reg racerr 30".into());
         cases.push("reg halfclosed RS".into());
         cases.push("reg halfclosed RQ".into());
+        cases.push("reg leave 60 32".into());
+        cases.push("reg leave 3 1".into());
         cases.push("reg rebind served".into());
         cases.push("reg rebind alone".into());
         cases.push("reg pipeline RP".into());
@@ -914,6 +952,9 @@ pub fn run_named(cfg: &Cfg, name: &str) {
                     if t[1] == "halfclosed" {
                         let want = if t[2] == "RS" { "got=one+two+three" } else { "got=r:first+r:second" };
                         if !line.contains(want) { m = Err(format!("{}: a peer that finished its sending side and kept reading no longer got what it is owed (accepted, then abandoned): {line}", if t[2] == "RS" { "C01/C11" } else { "C02/C11" })); }
+                    }
+                    if t[1] == "leave" && !line.contains("/handed") && !line.contains(&format!("got={} ", t[2])) {
+                        m = Err(format!("C01/C03: a publisher finished (every byte acknowledged) and left with its connection while a subscriber was not reading yet: the subscriber then read only a prefix of the {} messages the server had taken: {line}", t[2]));
                     }
                     if t[1] == "rebind" {
                         let want = if t[2] == "alone" { "first=- told=nothing second=pong2" } else { "first=pong1 told=nothing second=pong2" };
